@@ -18,6 +18,8 @@ pub fn def() -> PropDef {
         needed_probes: &["c01_pair_checked", "c01_digest_checked", "send_parked"],
         quick_runs: 30_000,
         thorough_runs: 2_000_000,
+        block: 1,
+        flavours: &["tokio"],
     }
 }
 
